@@ -2,12 +2,12 @@
 
 package dastard
 
-// Race probes: second parts of C08 and C14.
+// Race probes: second parts of C02, C08 and C14.
 //
-// Both properties are stated per channel / per record, and their main parts drive the code from one goroutine.
-// In production the same code runs in several goroutines at once: every channel's trigger search in its own
-// goroutine inside AnySource.ProcessSegments (C08), the record and the summary converter in the goroutines of the
-// two PUB sockets (C14). Package-level scratch state in the edge-multi code or in the byte-conversion helpers
+// The properties are stated per channel / per record, and their main parts drive the code from one goroutine
+// (C02's with triggers on one channel only). In production the same code runs in several goroutines at once: every
+// channel's trigger search in its own goroutine inside AnySource.ProcessSegments (C02, C08), the record and the
+// summary converter in the goroutines of the two PUB sockets (C14). Package-level scratch state in the edge-multi code or in the byte-conversion helpers
 // would make one channel's records (one socket's messages) depend on what another goroutine is doing, which no
 // single-goroutine exploration can see. The probes below run the real goroutines, free-running, in a
 // race-detector build; the detector (happens-before based, so independent of the actual timing) is the monitor.
@@ -133,6 +133,11 @@ func (r vrpRec) String() string { return fmt.Sprintf("{f=%d pre=%d len=%d}", r.f
 // vrpRunEMT sends truth through a fresh source with len(truth) channels, all in the given edge-multi
 // configuration, block by block through the real ProcessSegments, and returns the records per channel.
 func vrpRunEMT(x *vexp.X, ts TriggerState, truth [][]RawType, bounds []int) ([][]vrpRec, error) {
+	return vrpRun(x, ts, truth, bounds, false)
+}
+
+// vrpRun: the same for any trigger configuration, with the blocks labelled signed or unsigned.
+func vrpRun(x *vexp.X, ts TriggerState, truth [][]RawType, bounds []int, signed bool) ([][]vrpRec, error) {
 	nchan := len(truth)
 	src := vNewSource(nchan, vrpNpre, vrpNsamp)
 	defer src.close()
@@ -148,7 +153,7 @@ func vrpRunEMT(x *vexp.X, ts TriggerState, truth [][]RawType, bounds []int) ([][
 		if x != nil {
 			x.Steps++
 		}
-		if err := src.ds.ProcessSegments(vBlock(truth, bounds[b], bounds[b+1], false)); err != nil {
+		if err := src.ds.ProcessSegments(vBlock(truth, bounds[b], bounds[b+1], signed)); err != nil {
 			return nil, fmt.Errorf("ProcessSegments(block %d [%d,%d)): %v", b, bounds[b], bounds[b+1], err)
 		}
 		for ch := 0; ch < nchan; ch++ {
@@ -234,6 +239,103 @@ func TestVerifC08Race(t *testing.T) {
 			}
 			return vexp.Result{Nontrivial: busy >= 2, Outcome: fmt.Sprintf("%sharness-only-reports=%d", out.String(), nh)}
 		})
+	}
+}
+
+// ---------------------------------------------------------------------------------------------
+// C02: every channel carries the same edge / level / auto configuration and its own pulses; the channels'
+// trigger searches run concurrently in the real ProcessSegments
+
+// vrpTrigTruth: vMakeTruth's streams (baseline + position-dependent ripple, pulses of 400 counts decaying by 30 per
+// sample), with pulses in every channel and a different ripple per channel.
+func vrpTrigTruth(L int, signed bool, sign int, pulses [][]int) [][]RawType {
+	truth := make([][]RawType, len(pulses))
+	for ch := range pulses {
+		truth[ch] = make([]RawType, L)
+		for f := 0; f < L; f++ {
+			v := vBase(signed, sign) + vRipple(f, ch)
+			for _, p := range pulses[ch] {
+				if a := 400 - 30*(f-p); f >= p && a > 0 {
+					v += sign * a
+				}
+			}
+			truth[ch][f] = vToRaw(v, signed)
+		}
+	}
+	return truth
+}
+
+type vrpPulseLayout struct {
+	name   string
+	pulses [][]int
+}
+
+func vrpPulseLayouts() []vrpPulseLayout {
+	m := vrpMid
+	return []vrpPulseLayout{
+		{"one-frame-apart", [][]int{{m}, {m + 1}, {m + 2}}},
+		{"far-apart", [][]int{{vrpNpre + 3}, {m}, {m + 20}}},
+		{"two-pulses", [][]int{{m, m + 20}, {m + 3, m + 18}, {vrpNpre + 2, m + 9}}},
+		{"start-up+late", [][]int{{vrpNpre + 1, m + 1}, {3, vrpL - vrpNsamp + vrpNpre - 1}, {m - 5, vrpL - 2}}},
+	}
+}
+
+func TestVerifC02Race(t *testing.T) {
+	r := vexp.NewRunner("C02")
+	r.CrashTrace = true
+	defer r.Finish()
+	vrpNeedRaceBuild("C02")
+	layouts := vrpPulseLayouts()
+	parts := vrpPartitions()
+	r.SetBound(fmt.Sprintf("race probe (race-detector build, GOMAXPROCS=%d): %d channels all with the same trigger configuration through the real ProcessSegments (one goroutine per channel), npre=%d nsamp=%d, "+
+		"signed/unsigned x the 10 edge/level/auto configurations of the main part x %d pulse layouts (different positions in every channel: one frame apart, far apart, two pulses each, start-up + late) x %d block patterns (1, 2, 3 blocks, uniform 10 and 7)",
+		runtime.GOMAXPROCS(0), vrpNchan, vrpNpre, vrpNsamp, len(layouts), len(parts)))
+	for _, signed := range []bool{false, true} {
+		for _, cfg := range vTrigConfigs(signed, false) {
+			signed, cfg := signed, cfg
+			r.DFS(fmt.Sprintf("race/trig/signed=%v/%s", signed, cfg.name), -1, func(x *vexp.X) vexp.Result {
+				vF0 = 1000
+				lay := layouts[x.Choose(len(layouts))]
+				part := parts[x.Choose(len(parts))]
+				desc := fmt.Sprintf("signed=%v %s, pulses %s %v, blocks %s %v", signed, cfg.name, lay.name, lay.pulses, part.name, part.bounds)
+				x.Logf("%s", desc)
+				truth := vrpTrigTruth(vrpL, signed, cfg.pulseSign, lay.pulses)
+				all, err := vrpRun(x, cfg.ts, truth, part.bounds, signed)
+				viol, class, nh := vrpRaceVerdict(desc)
+				if viol != "" {
+					return vexp.Result{Violation: viol, Class: class}
+				}
+				if err != nil {
+					return vexp.Result{Violation: desc + ": driver step failed: " + err.Error(), Class: "driver-error"}
+				}
+				// functional oracle: a channel's triggers do not depend on what the other channels carry
+				var out strings.Builder
+				busy := 0
+				for ch := 0; ch < vrpNchan; ch++ {
+					alone, err := vrpRun(nil, cfg.ts, truth[ch:ch+1], part.bounds, signed)
+					if err != nil {
+						return vexp.Result{Violation: desc + ": single-channel reference run failed: " + err.Error(), Class: "driver-error"}
+					}
+					same := len(all[ch]) == len(alone[0])
+					for i := 0; same && i < len(alone[0]); i++ {
+						same = all[ch][i] == alone[0][i]
+					}
+					if !same {
+						return vexp.Result{Violation: fmt.Sprintf("%s: channel %d processed together with %d other channels in the same trigger configuration gives records %v, the same stream processed alone gives %v",
+							desc, ch, vrpNchan-1, all[ch], alone[0]), Class: "trigger-depends-on-other-channels"}
+					}
+					if len(all[ch]) > 0 {
+						busy++
+					}
+					fmt.Fprintf(&out, "ch%d:%v ", ch, all[ch])
+				}
+				// the reference runs are single-channel, but they too run repository goroutines
+				if viol, class, _ := vrpRaceVerdict(desc + " (single-channel reference runs)"); viol != "" {
+					return vexp.Result{Violation: viol, Class: class}
+				}
+				return vexp.Result{Nontrivial: busy >= 2, Outcome: fmt.Sprintf("%sharness-only-reports=%d", out.String(), nh)}
+			})
+		}
 	}
 }
 
